@@ -7,11 +7,17 @@
    Proved here: the algorithmic core for every input - nextCounter returns the least free value at or above the
    preferred one; the ID computed for a joining element is carried by no member; a free pre-set value is kept;
    Document::add leaves every element that already belongs to a document untouched; lookup finds a carried ID;
-   set(Id) of an ID in use throws and changes nothing.  Not proved: that uniqueness is an invariant of all histories
-   (the hypothesis [distinct_above] of the freshness theorem is that invariant restricted to the values the assigner
-   looks at; theorem names carry _partial for this reason); it is explored by the differential run with the
-   uniqueness and lookup oracles on libadm after every call. *)
-From Adm Require Import Heap.Exec gen.PlansGen Heap.PlanChecks Heap.Frame Heap.Ids.
+   set(Id) of an ID in use throws and changes nothing; and (Heap/Uniq.v) uniqueness as an invariant of every history
+   of the modelled calls (new document, new element, add, remove, the reference calls, set(Id), getSilent, lookup),
+   with no hypothesis of distinctness: the distinctness nextCounter needs is the invariant itself.  Exempt from
+   uniqueness are exactly: the reserved range, the undefined ID, silent track UIDs, and track-UID values that do not
+   fit the 32-bit field (the model's numbers are unbounded; the property quantifies over histories in which fewer
+   values are in use than the field holds).  The one guard on a history [run_ok]: an ID passed to set(Id) has the
+   shape its C++ type enforces, and value 0 of a pack/channel/stream-format ID belongs to the all-zero ID only.
+   The two theorems that keep the suffix _partial are stated for an arbitrary state under [distinct_above];
+   C05_distinctness_holds_in_reached_states discharges that hypothesis in every reached state.
+   Not modelled here: deepCopy/parse as sources of documents (C09/C13 cover them), wrap-around of the 16/32-bit fields. *)
+From Adm Require Import Heap.Exec gen.PlansGen Heap.PlanChecks Heap.Frame Heap.Ids Heap.WF Heap.Uniq.
 Local Open Scope N_scope.
 
 Theorem C05_plans_recognised : plans_problems = [] /\ add_plan_complete gen_plans = true /\ plans_typed gen_plans = true.
@@ -61,6 +67,87 @@ Theorem C05_set_id_in_use_throws : forall h i s e d x h' e', get_elem s h = Some
   get_elem s h' = Some e' -> id_eqb (eid e') i = true -> set_id h i s = (s, inr IdInUse).
 Proof. exact set_id_in_use. Qed.
 Print Assumptions C05_set_id_in_use_throws.
+
+(* ---------- uniqueness in every reached document ---------- *)
+(* nextCounter needs no distinctness of the whole list: a result below M is free when the values below M are distinct *)
+Theorem C05_next_counter_fresh_below : forall cs pref M,
+  (forall c, pref <= c -> c < M -> (count_occ N.eq_dec cs c <= 1)%nat) ->
+  next_counter cs pref < M -> ~ In (next_counter cs pref) cs.
+Proof. exact next_counter_fresh_below. Qed.
+Print Assumptions C05_next_counter_fresh_below.
+
+(* one call keeps the invariant [U] = membership lists consistent /\ IDs unique /\ IDs of the shape of their type *)
+Theorem C05_every_call_keeps_ids_unique : forall o s s' v, WF s -> U s -> op_ok s o ->
+  exec gen_plans o s = (s', inl v) -> U s'.
+Proof. exact (uniq_step gen_plans gen_remove_plan_complete gen_plans_typed eq_refl). Qed.
+Print Assumptions C05_every_call_keeps_ids_unique.
+
+(* every history from the empty state: two different members of one list of one document carry different IDs,
+   unless the ID is exempt *)
+Theorem C05_ids_unique_in_every_history : forall ops s', run_ok gen_plans ops empty_state ->
+  run_succ gen_plans ops empty_state = Some s' ->
+  forall d k h1 h2 e1 e2, In h1 (listed s' d k) -> In h2 (listed s' d k) -> h1 <> h2 ->
+    get_elem s' h1 = Some e1 -> get_elem s' h2 = Some e2 -> exempt k (eid e1) = false -> eid e1 <> eid e2.
+Proof.
+  exact (fun ops s' Hok Hrun =>
+    match uniq_invariant gen_plans gen_add_plan_complete gen_remove_plan_complete gen_plans_typed eq_refl
+            ops empty_state s' empty_wf empty_U Hok Hrun with
+    | conj _ (conj _ (conj Un _)) => Un
+    end).
+Qed.
+Print Assumptions C05_ids_unique_in_every_history.
+
+(* what is exempt, spelled out *)
+Theorem C05_exempt_meaning : forall k i, exempt k i = false <->
+  is_reserved k i = false /\ is_undefined k i = false /\
+  (k = KUid -> is_silent_id i = false /\ ival i < uid_undef_val).
+Proof. exact exempt_meaning. Qed.
+Print Assumptions C05_exempt_meaning.
+
+(* in every reached state lookup(id) of an ID that is not exempt returns exactly the member that carries it *)
+Theorem C05_lookup_returns_the_carrier : forall ops s', run_ok gen_plans ops empty_state ->
+  run_succ gen_plans ops empty_state = Some s' ->
+  forall d x k i h e, get_doc s' d = Some x -> In h (members x k) -> get_elem s' h = Some e -> eid e = i ->
+    exempt k i = false -> lookup d k i s' = (s', inl (Some h)).
+Proof.
+  exact (fun ops s' Hok Hrun d x k i h e =>
+    lookup_unique s' d x k i h e
+      (proj2 (uniq_invariant gen_plans gen_add_plan_complete gen_remove_plan_complete gen_plans_typed eq_refl
+                ops empty_state s' empty_wf empty_U Hok Hrun))).
+Qed.
+Print Assumptions C05_lookup_returns_the_carrier.
+
+(* in every reached state the distinctness hypothesis of the two _partial theorems above holds for an element that
+   receives a non-reserved ID (for track UIDs: while every listed UID fits the field) *)
+Theorem C05_distinctness_holds_in_reached_states : forall ops s', run_ok gen_plans ops empty_state ->
+  run_succ gen_plans ops empty_state = Some s' ->
+  forall d x e ni, get_doc s' d = Some x -> okid (ekind e) (eid e) = true -> is_reserved (ekind e) (eid e) = false ->
+    new_id_for s' x e = Some ni -> is_reserved (ekind e) ni = false ->
+    (ekind e = KUid -> forall h e2, In h (members x KUid) -> get_elem s' h = Some e2 -> ival (eid e2) < uid_undef_val) ->
+    distinct_above s' x e.
+Proof.
+  exact (fun ops s' Hok Hrun d x e ni =>
+    distinct_from_U s' d x e ni
+      (proj2 (uniq_invariant gen_plans gen_add_plan_complete gen_remove_plan_complete gen_plans_typed eq_refl
+                ops empty_state s' empty_wf empty_U Hok Hrun))).
+Qed.
+Print Assumptions C05_distinctness_holds_in_reached_states.
+
+(* the guard is decidable and a history with colliding pre-set IDs, gaps, removal and re-adding passes it *)
+Example C05_history_exists :
+  let ops := [ONewDoc 1; ONew 2 KObj 0 false; ONew 3 KObj 0 false; ONew 4 KObj 0 false; ONew 5 KPack 1 false;
+              ONew 6 KPack 1 false; ONew 7 KUid 0 false; ONew 8 KUid 0 false;
+              OSetId 2 (mkId 0 4200 0); OSetId 3 (mkId 0 4200 0); OSetId 5 (mkId 1 4097 0); OSetId 6 (mkId 1 4097 0);
+              OSetId 7 (mkId 0 9 0); OSetId 8 (mkId 0 9 0);
+              OAdd 1 2; OAdd 1 3; OAdd 1 4; OAdd 1 5; OAdd 1 6; OAdd 1 7; OAdd 1 8;
+              ORemove 1 2; OSetId 2 (mkId 0 4201 0); OAdd 1 2] in
+  run_ok_b gen_plans ops empty_state = true /\
+  match run_succ gen_plans ops empty_state with
+  | Some s => map (fun h => option_map (fun e => ival (eid e)) (get_elem s h)) [2; 3; 4; 5; 6; 7; 8]%positive
+              = [Some 4202; Some 4201; Some 4097; Some 4097; Some 4098; Some 9; Some 10]
+  | None => False
+  end.
+Proof. vm_compute. auto. Qed.
 
 (* the statements are about something: values and a history *)
 Example C05_next_counter_values :
